@@ -422,7 +422,7 @@ fn gen_line(t: &mut Tape, declared: &mut Vec<String>, heap_vars: &mut Vec<String
     }
 }
 
-fn gen_session(tape: &[u8]) -> Vec<Line> {
+pub fn gen_session(tape: &[u8]) -> Vec<Line> {
     let mut t = Tape::new(tape);
     let n = 2 + t.below(11);
     let mut declared = vec!["a".to_string()];
@@ -439,7 +439,7 @@ pub fn replay(case: &Value) -> Option<Violation> {
     check_session(&lines).err().map(|f| Violation { property: "C17".into(), driver: "replay".into(), class: f.0, case: case.clone(), expected: f.2, observed: f.3 })
 }
 
-fn minimize_session(lines: &[Line], fails: &mut dyn FnMut(&[Line]) -> bool) -> Vec<Line> {
+pub fn minimize_session(lines: &[Line], fails: &mut dyn FnMut(&[Line]) -> bool) -> Vec<Line> {
     let mut cur = lines.to_vec();
     loop {
         let mut progressed = false;
